@@ -185,15 +185,17 @@ Definition parse_binary (text : bytes) : option Z :=
   let '(negative, s1) := strip_sign s in
   let '(bits, maxd, s2) :=
     match s1 with
-    | 48%N :: t =>
-        match t with
-        | c :: t' => let C := upper c in
-                     if (C =? 88)%N then (4, 16, t')
-                     else if (C =? 66)%N then (1, 2, t')
-                     else (3, 10, t)
-        | [] => (3, 10, t)
-        end
-    | _ => (3, 10, s1)
+    | c0 :: t =>
+        if (c0 =? 48)%N then
+          match t with
+          | c :: t' => let C := upper c in
+                       if (C =? 88)%N then (4, 16, t')
+                       else if (C =? 66)%N then (1, 2, t')
+                       else (3, 10, t)
+          | [] => (3, 10, t)
+          end
+        else (3, 10, s1)
+    | [] => (3, 10, s1)
     end in
   match pb_loop bits maxd s2 0 with
   | Some ret => Some (if negative then wrap64 (- ret) else ret)
@@ -219,9 +221,8 @@ Fixpoint int_sfx (s : bytes) (longs : nat) (uns : bool) : nat * bool :=
 Definition parse_int (text : bytes) : option Z :=
   let s := skip_ws text in
   let '(negative, s1) := strip_sign s in
-  match s1 with
-  | 48%N :: _ => parse_binary text
-  | _ =>
+  if match s1 with c :: _ => (c =? 48)%N | [] => false end then parse_binary text
+  else
       let '(ret, s2) := dec_loop s1 0 in
       let '(longs, uns) := int_sfx s2 O false in
       let ret := if negative then wrap64 (- ret) else ret in
@@ -229,8 +230,7 @@ Definition parse_int (text : bytes) : option Z :=
             | O => if uns then wrap64 (cast KU32 ret) else wrap64 (cast KI32 ret)
             | S O => if uns then wrap64 (cast KU64 ret) else wrap64 (cast KI64 ret)
             | _ => ret
-            end)
-  end.
+            end).
 
 (* ------------------------------------------------------------------ result of a parsing step *)
 Inductive res (A : Type) : Type :=
@@ -377,6 +377,51 @@ Section WithFloats.
           else Ok st s
     end.
 
+  (* the type the U / L suffixes select *)
+  Definition suffix_kind (st : sfx) : ikind :=
+    match sx_longs st with
+    | O => if sx_uns st then KU32 else KI32
+    | _ => if sx_uns st then KU64 else KI64
+    end.
+
+  (* `if ( *c == '0')` followed by B or X: None = not a formatted literal (back up and read digits),
+     Some None = loadBinary/loadHex found no digit, Some (Some (type, value, cursor)) otherwise *)
+  Definition pl_fmt (negative : bool) (s1 : bytes) : option (option (ikind * Z * bytes)) :=
+    match s1 with
+    | c1 :: t1 =>
+        if (c1 =? 48)%N then
+          match t1 with
+          | c2 :: t2 =>
+              let C := upper c2 in
+              if (C =? 66)%N then
+                let '(v, n, r) := bin_digits t2 0 0 in
+                if n =? 0 then Some None
+                else let '(k, x) := typed_by_bits (n + (if negative then 1 else 0)) negative v in
+                     Some (Some (k, x, r))
+              else if (C =? 88)%N then
+                let '(v, n, r) := hex_digits t2 0 0 in
+                if n =? 0 then Some None
+                else let '(k, x) := typed_by_bits (4 * n + (if negative then 1 else 0)) negative v in
+                     Some (Some (k, x, r))
+              else None
+          | [] => None
+          end
+        else None
+    | [] => None
+    end.
+
+  (* the value of a literal made of ordinary digits, from the text between c0 and c *)
+  Definition pl_value (s : bytes) (st : sfx) (r' : bytes) : res (prim * bytes) :=
+    let text := consumed s r' in
+    if sx_dec st || sx_flt st then
+      if sx_flt st then Ok (PF32 (parse32 text), text) r'
+      else Ok (PF64 (parse64 text), text) r'
+    else
+      match parse_int text with
+      | None => Err
+      | Some value_ => let k' := suffix_kind st in Ok (PInt k' (cast k' value_), text) r'
+      end.
+
   (* primitive::load(c, includeSign): Ok (p, source) cursor *)
   Fixpoint prim_load (fuel : nat) (includeSign : bool) (s : bytes) : res (prim * bytes) :=
     match fuel with
@@ -393,38 +438,11 @@ Section WithFloats.
           else
             let negative := (c0 =? 45)%N in
             let s1 := if is_sign then skip_ws t0 else s in
-            (* `if ( *c == '0')`: hex / binary, else back up *)
-            let fmt : option (option (ikind * Z * bytes)) :=
-              match s1 with
-              | 48%N :: t1 =>
-                  match t1 with
-                  | c2 :: t2 =>
-                      let C := upper c2 in
-                      if (C =? 66)%N then
-                        let '(v, n, r) := bin_digits t2 0 0 in
-                        if n =? 0 then Some None
-                        else let '(k, x) := typed_by_bits (n + (if negative then 1 else 0)) negative v in
-                             Some (Some (k, x, r))
-                      else if (C =? 88)%N then
-                        let '(v, n, r) := hex_digits t2 0 0 in
-                        if n =? 0 then Some None
-                        else let '(k, x) := typed_by_bits (4 * n + (if negative then 1 else 0)) negative v in
-                             Some (Some (k, x, r))
-                      else None
-                  | [] => None
-                  end
-              | _ => None
-              end in
-            match fmt with
+            match pl_fmt negative s1 with
             | Some None => Ok (PNone, []) s             (* c = c0; return primitive() *)
             | Some (Some (k, x, r)) =>
                 match sfx_loop (prim_load f true) true r (Sfx O false false false) with
-                | Ok st r' =>
-                    let k' := match sx_longs st with
-                              | O => if sx_uns st then KU32 else KI32
-                              | _ => if sx_uns st then KU64 else KI64
-                              end in
-                    Ok (PInt k' (cast k' x), consumed s r') r'
+                | Ok st r' => let k' := suffix_kind st in Ok (PInt k' (cast k' x), consumed s r') r'
                 | Err => Err | Oob => Oob | NoFuel => NoFuel
                 end
             | None =>
@@ -433,21 +451,7 @@ Section WithFloats.
                 | O => Ok (PNone, []) s                 (* c = c0; source = "" *)
                 | _ =>
                     match sfx_loop (prim_load f true) false r (Sfx O false decimal false) with
-                    | Ok st r' =>
-                        let text := consumed s r' in
-                        if sx_dec st || sx_flt st then
-                          if sx_flt st then Ok (PF32 (parse32 text), text) r'
-                          else Ok (PF64 (parse64 text), text) r'
-                        else
-                          match parse_int text with
-                          | None => Err
-                          | Some value_ =>
-                              let k' := match sx_longs st with
-                                        | O => if sx_uns st then KU32 else KI32
-                                        | _ => if sx_uns st then KU64 else KI64
-                                        end in
-                              Ok (PInt k' (cast k' value_), text) r'
-                          end
+                    | Ok st r' => pl_value s st r'
                     | Err => Err | Oob => Oob | NoFuel => NoFuel
                     end
                 end
